@@ -1012,7 +1012,8 @@ class Gridder(GeospatialGrid):
             subsegment_distance_fractions = np.divide(
                 subsegment_distances,
                 segment_distances_repeated,
-                out=np.zeros_like(subsegment_distances),
+                # a zero-length segment (repeated point) keeps its whole value
+                out=1.0 / np.repeat(count_subsegments, count_subsegments),
                 where=segment_distances_repeated != 0,
             )
 
